@@ -771,6 +771,12 @@ func generate(r *hx.Rng) []*kase {
 		addSeq(codec, local, remote, []raftpb.Message{third, full, first}, false)
 	}
 
+	// connection lifecycle through the real streamWriter
+	for i := 0; i < *nLife; i++ {
+		codec, local, remote, conns := genLife(r)
+		add("L", codec, local, remote, fmtConns(conns), "-")
+	}
+
 	// raw streams
 	for i := 0; i < *nRaw; i++ {
 		var codec string
